@@ -103,7 +103,7 @@ theorem echo_identity (items : List Item) (hwf : ∀ it ∈ items, it.WF)
   exact ⟨outs, h1, by rw [h2]; exact echoIdentity_items items hwf, h3⟩
 
 /-- **Echo identity up to re-derived batch dimensions** (the former finding `batch-dims-rederived`, repaired at its
-source — `groupBy`, `fix:` a050cea — so that no in-tree code builds such a header any more) — the full characterisation of what the
+source — `groupBy`, `fix:` 6ba92e9 — so that no in-tree code builds such a header any more) — the full characterisation of what the
 code does for ARBITRARY batch headers (no `Begin.WF`): under the same schedules, what comes back is the input with
 every batch's dimension list replaced by the sorted keys of its tags and its group ID re-derived from them
 (`devDimsOut`), and nothing else changed. For headers built by `NewBeginBatchMessage`/`SetTags` this IS the
@@ -119,7 +119,7 @@ theorem echo_identity_up_to_dims (items : List Item) (hwf : ∀ it ∈ items, it
   exact ⟨outs, h1, by rw [h2]; exact echoIdentityUpToDims_items items hwf⟩
 
 /-- Counterexample behind the former finding `batch-dims-rederived`: the header `GroupByNode` built for
-`groupBy('a','a')` before `fix:` a050cea (`SetTagsAndDimensions` with the dimension named twice; today the dimension
+`groupBy('a','a')` before `fix:` 6ba92e9 (`SetTagsAndDimensions` with the dimension named twice; today the dimension
 list of a `groupBy` is duplicate-free and this header is hand-made) has group ID `a=x,a=x`; the batch that comes back through
 the model of the boundary has dimensions `[a]` and group ID `a=x` — not the same batch
 (replayed on the implementation by corpus/C19/synthetic-header-dims-rederived.ops). -/
